@@ -26,13 +26,14 @@ RULE = ("one case = (dataset, element naming, scheme); inside a case every confi
         "ParCons / ExactAlgorithm re-run through the cplex stand-in) is run with return_at_most_one_ranking in "
         "{True, False}; configurations drawing random pivots are run under EVERY pivot sequence when the universe has "
         "<= 4 elements (controlled `choice`), else under 3 seeds. quick: all datasets of <= 2 rankings from R(3) "
-        "(rankings with ties over subsets of 3 names, empty rankings and duplicates included) under 2 rotating schemes "
-        "and a rotating naming, a 1/3 subset under all 6 namings, hand-written corner datasets, 250 seeded datasets "
-        "n<=5 m<=4.  distinct = distinct (dataset, naming, scheme, configuration, one, pivot sequence) that returned a "
-        "consensus; a case is trivial when no configuration returned a consensus.")
+        "(rankings with ties over subsets of 3 names, empty rankings and duplicates included) under 3 rotating "
+        "(naming, scheme) pairs, 17 hand-written corner datasets under all 7 namings x 5 schemes, 600 seeded datasets "
+        "n<=5 m<=4 (1/5 complete, 1/7 with a duplicated ranking, 1/11 with an empty ranking).  distinct = distinct "
+        "(dataset, naming, scheme, configuration, one, pivot sequence) that returned a consensus; a case is trivial "
+        "when no configuration returned a consensus.")
 EXHAUSTIVE = {"quick": False, "thorough": False}
-SCOPE = {"quick": "700 datasets (n<=3, m<=2, exhaustive) x 2 schemes + 233 x 6 namings + 14 corner datasets x 6 "
-                  "namings x 3 schemes + 250 sampled (n<=5, m<=4); 27 configuration runs x one in {T,F} each; all pivot "
+SCOPE = {"quick": "700 datasets (n<=3, m<=2, exhaustive) x 3 (naming, scheme) + 17 corner datasets x 7 namings x 5 "
+                  "schemes + 600 sampled (n<=5, m<=4); 35 schemes; 25 configurations x one in {T,F} each; all pivot "
                   "sequences for n<=4",
          "thorough": "all datasets n<=3 m<=3 (18.3k) and n=4 m<=2 (22.6k) x 1 rotating scheme, quick's sweep, 4000 "
                      "sampled (n<=6, m<=5); all pivot sequences for n<=4"}
@@ -169,33 +170,40 @@ CORNERS = [
     [[[0], [1]], [[2], [3]]],                        # disjoint domains
     [[[0, 1], [2, 3]], [[2, 3], [0, 1]], [[0, 2], [1, 3]]],
     [[[3], [2], [1], [0]], [[3], [2], [1], [0]], [[0], [1], [2], [3]], [[1, 2]]],
+    # a Condorcet cycle (non-trivial strongly connected component) next to elements outside it: under the namings
+    # "mixed2" / "mixed" the component consists of integer-like names only while the dataset does not
+    [[[0], [1], [2], [3]], [[0], [2], [3], [1]], [[0], [3], [1], [2]]],
+    [[[1], [0], [2], [4], [3]], [[1], [2], [4], [0], [3]], [[1], [4], [0], [2], [3]]],
+    [[[1], [2], [3]], [[2], [3], [1], [0]], [[3], [1], [2]]],
 ]
+
+
+# namings: those of domains.py plus one where every name but the first is integer-like (a sub-problem made of
+# integer-like names only inside a dataset that is NOT all integer-like must keep its str names)
+NAME_KINDS = dict(D.NAME_KINDS)
+NAME_KINDS["mixed2"] = lambda n: ["a"] + [str(20 + i) for i in range(1, n)]
 
 
 def named(rankings, kind):
     u = D.universe_of(rankings)
     n = (max(u) + 1) if u else 1
-    return D.rename(rankings, D.NAME_KINDS[kind](n))
+    return D.rename(rankings, NAME_KINDS[kind](n))
 
 
-def sweep(tier, seed, schemes, per_dataset_schemes=2, sample_quick=250, sample_thorough=4000):
+def sweep(tier, seed, schemes, per_dataset_schemes=3, sample_quick=600, sample_thorough=4000):
     """Deterministic stream of {"rankings", "scheme", "namekind", "src"} shared by C03 / C04."""
-    kinds = list(D.NAME_KINDS)
+    kinds = list(NAME_KINDS)
     ns = len(schemes)
     i = 0
     for d in D.all_datasets(3, 2):
         for j in range(per_dataset_schemes):
-            kind = kinds[(i + j) % len(kinds)]
+            kind = kinds[(i + 3 * j) % len(kinds)]
             yield {"rankings": named(d, kind), "scheme": schemes[(i * per_dataset_schemes + j * 11) % ns],
                    "namekind": kind, "src": "n3m2"}
-        if i % 3 == 0:
-            for kind in kinds:
-                yield {"rankings": named(d, kind), "scheme": schemes[(5 * i + 2) % ns], "namekind": kind,
-                       "src": "n3m2-names"}
         i += 1
     for ci, d in enumerate(CORNERS):
         for ki, kind in enumerate(kinds):
-            for j in range(3):
+            for j in range(5):
                 yield {"rankings": named(d, kind), "scheme": schemes[(ci * 7 + ki * 3 + j * 13) % ns],
                        "namekind": kind, "src": "corner"}
     if tier == "thorough":
@@ -220,7 +228,26 @@ def sweep(tier, seed, schemes, per_dataset_schemes=2, sample_quick=250, sample_t
         if i % 11 == 0:
             d = d + [[]]                               # an empty ranking
         kind = kinds[i % len(kinds)]
-        yield {"rankings": named(d, kind), "scheme": schemes[(i * 3 + 1) % ns], "namekind": kind, "src": "sample"}
+        yield {"rankings": named(d, kind), "scheme": schemes[(i * 3 + 1 + i // len(kinds)) % ns], "namekind": kind,
+               "src": "sample"}
+
+
+def only_types_differ(cons, universe, one):
+    """True when the consensus would be well formed if names were compared as text (int 4 returned for str '4')."""
+    from bounded import adapt as A
+    try:
+        rs = cons.consensus_rankings
+        if len(rs) < 1 or (one and len(rs) != 1):
+            return False
+        want = sorted(str(v) for v in universe)
+        for r in rs:
+            if any(len(b) == 0 for b in r):
+                return False
+            if sorted(str(A.val(e)) for b in r for e in b) != want:
+                return False
+        return True
+    except Exception:
+        return False
 
 
 def gen_cases(tier, seed):
@@ -263,7 +290,8 @@ def check_case(case):
                 except Exception as e:       # the object returned cannot even be traversed as a list of rankings
                     why, shown = "result is not a list of rankings of buckets: %s: %s" % (type(e).__name__, e), None
                 if why is not None:
-                    add({"clause": "C03.W", "site": label, "detail": dict(ctx, problem=why, consensus=shown,
-                                                                          universe=sorted(map(str, universe)))})
+                    clause = "C03.W.types" if only_types_differ(p, universe, one) else "C03.W"
+                    add({"clause": clause, "site": label, "detail": dict(ctx, problem=why, consensus=shown,
+                                                                         universe=sorted(map(repr, universe)))})
     key = "%s|%s" % (rankings, scheme) if answered else None
     return {"fails": fails, "key": key, "nkeys": max(answered - 1, 0), "evals": evals, "sample": case}
